@@ -71,6 +71,9 @@ type handler1 struct {
 	// Stops the pinger which keeps the MQTT connection of a sleeping client
 	// alive. Used by the MQTT-SN receive goroutine only.
 	cancelSleepPinger context.CancelFunc
+	// Held by the sleep pinger while it pings the broker and by
+	// stopSleepPinger while it cancels it: a stopped pinger sends nothing.
+	sleepPingerLock sync.Mutex
 	// The number of PINGREQs sent to the broker by the gateway itself (i.e.
 	// not on behalf of the client's PINGREQ) and not answered yet.
 	ownPings int32
@@ -1008,7 +1011,10 @@ func (h *handler1) pingBroker() error {
 
 func (h *handler1) stopSleepPinger() {
 	if h.cancelSleepPinger != nil {
+		// After the lock is released the pinger sends nothing more.
+		h.sleepPingerLock.Lock()
 		h.cancelSleepPinger()
+		h.sleepPingerLock.Unlock()
 		h.cancelSleepPinger = nil
 	}
 }
@@ -1030,7 +1036,16 @@ func (h *handler1) startSleepPinger(ctx context.Context) {
 		defer h.log.Debug("Sleep pinger quits.")
 		defer lostTimer.Stop()
 		for {
-			if err := h.pingBroker(); err != nil {
+			// The pinger can be stopped before it gets to run at all: it
+			// must not ping then (e.g. after the MQTT DISCONNECT).
+			h.sleepPingerLock.Lock()
+			if ctx2.Err() != nil {
+				h.sleepPingerLock.Unlock()
+				return nil
+			}
+			err := h.pingBroker()
+			h.sleepPingerLock.Unlock()
+			if err != nil {
 				return err
 			}
 			select {
